@@ -68,8 +68,10 @@ pub fn gen_creds(rng: &mut Rng) -> RefCreds {
 
 /// Credentials whose derived key is guaranteed to be non-pathological for speed (short strings).
 pub fn gen_creds_small(rng: &mut Rng) -> RefCreds {
+    // one in eight passwords / names is long: around and beyond the 64-byte HMAC block size (keys
+    // longer than a block are hashed first) and MD5's block boundaries for long-term keys
     let w = |rng: &mut Rng| {
-        let n = rng.usize(10);
+        let n = if rng.chance(1, 8) { *rng.pick(&[55usize, 56, 63, 64, 65, 66, 100, 127, 128, 129, 200]) } else { rng.usize(10) };
         text_exact(rng, n)
     };
     if rng.chance(1, 2) {
@@ -91,19 +93,22 @@ pub fn near_miss_creds(rng: &mut Rng, c: &RefCreds) -> Vec<RefCreds> {
             4 => format!(" {s}"),
             5 => s.to_lowercase(),
             6 => String::new(),
+            // the first 64 bytes only (one hash block), and the same with another tail
+            8 => s.chars().take(64).collect(),
+            9 => format!("{}{}", s.chars().take(64).collect::<String>(), "~tail"),
             _ => format!("{s}x"),
         }
     };
     match c {
         RefCreds::Short(p) => {
-            for h in 0..8 {
+            for h in 0..10 {
                 out.push(RefCreds::Short(tweak(p, h)));
             }
             out.push(RefCreds::Long(String::new(), String::new(), p.clone()));
             out.push(RefCreds::Long("user".into(), "realm".into(), p.clone()));
         }
         RefCreds::Long(u, r, p) => {
-            for h in 0..8 {
+            for h in 0..10 {
                 out.push(RefCreds::Long(u.clone(), r.clone(), tweak(p, h)));
                 out.push(RefCreds::Long(tweak(u, h), r.clone(), p.clone()));
                 out.push(RefCreds::Long(u.clone(), tweak(r, h), p.clone()));
